@@ -24,7 +24,7 @@ func init() {
 			return 120000
 		},
 		Run:      runC13,
-		Required: []string{"same_origin_accepted", "cross_origin_refused", "real_server_cases"},
+		Required: []string{"same_origin_accepted", "cross_origin_refused", "real_server_cases", "cases_with_deployment_context"},
 		Assumptions: []string{
 			"origins whose host needs percent-decoding, scheme-less origins and origins with userinfo in front of the genuine host are not generated (the property does not decide them)",
 		},
@@ -262,6 +262,11 @@ func runC13(ctx *core.Ctx, out *core.Out) {
 		wantAccept, kind = false, "two-origin-lines-first-foreign"
 	}
 	u := upCfg{SubNil: true, RespNil: true}
+	if r.Chance(1, 3) {
+		// where the handler is deployed is no part of the origin policy
+		u.Deploy = genDeploy(r, origin)
+		out.Count("cases_with_deployment_context", 1)
+	}
 	q := &hsReq{H: map[string][]string{}, Classes: map[string]string{}, classOf: map[string]int{}, Host: host, Target: "/ws", Method: "GET"}
 	q.set("Connection", []string{"Upgrade"}, cValid)
 	q.set("Upgrade", []string{"websocket"}, cValid)
@@ -281,7 +286,7 @@ func runC13(ctx *core.Ctx, out *core.Out) {
 			}
 		}
 	}
-	desc := map[string]interface{}{"other_headers": extra, "host": fmt.Sprintf("%q", host), "origin": fmt.Sprintf("%q", origin), "construction": kind, "must_accept": wantAccept, "mode": map[bool]string{true: "real net/http server", false: "direct"}[realMode]}
+	desc := map[string]interface{}{"deployment": u.Deploy, "other_headers": extra, "host": fmt.Sprintf("%q", host), "origin": fmt.Sprintf("%q", origin), "construction": kind, "must_accept": wantAccept, "mode": map[bool]string{true: "real net/http server", false: "direct"}[realMode]}
 	out.Eval(fmt.Sprintf("%q|%q", host, origin), origin != nil)
 	var o *hsOutcome
 	if realMode {
